@@ -52,6 +52,7 @@ structure Limits where
   catchDepth : Nat := 0
   noCodeCallbacks : Nat := 0   -- the program makes this many efun callbacks that execute no instruction
   safeWeight : Nat := 0        -- safe applies the program can make (each may add one tick: eval_bounded)
+  traceValues : Nat := 0       -- values per frame the driver's own trace turns into text (ArgumentsInTrace / LocalVariablesInTrace)
   rxMustExpire : Bool := false -- the evaluation makes a regexp match that needs more node visits than the whole budget pays for
   deriving Repr
 
@@ -59,6 +60,14 @@ structure Limits where
     trace with its master::object_name applies.  The number of deliveries is measured (entries of mudlib_error_handler, the
     `handlers` field of the obs line) and, for program evaluations, compared with the model's (`handlers <n>` line). -/
 def handlerAllowance : Nat := 250
+
+/-- ... and per traced value of every frame when the driver prints its own trace with arguments / local variables (no master
+    error_handler, or one that failed): master::object_name is applied for every object value -/
+def traceAllowance : Nat := 16
+
+/-- allowance for one delivery, given the deepest control stack index of the evaluation -/
+def deliveryAllowance (lim : Limits) (maxcsp : Int) : Int :=
+  (handlerAllowance : Int) + (traceAllowance : Int) * lim.traceValues * ((maxcsp + 2).toNat : Int)
 
 def kvOf (toks : List String) (key : String) : Option Int :=
   match toks.find? (fun t => t.startsWith (key ++ "=")) with
@@ -83,7 +92,7 @@ structure Obs where
 def judgeNums (lim : Limits) (o : Obs) : List String :=
   -- (the budget the evaluation started with, when the harness reports it: set_eval_limit may change the configured one meanwhile)
   (if o.ticks > (if o.cost0 > 0 then o.cost0 else if lim.cost > 0 then lim.cost else 0) + (lim.safeWeight : Int) +
-      (handlerAllowance : Int) * o.handlers then
+      deliveryAllowance lim o.maxcsp * o.handlers then
       (if lim.cost ≤ 0 then [s!"eval-exceeded nonpositive-budget ticks={o.ticks} budget={lim.cost}"]
        else if lim.hasSafe then [s!"eval-exceeded through-safe-apply ticks={o.ticks} budget={lim.cost}"]
        else [s!"eval-exceeded ticks={o.ticks} budget={lim.cost}"])
